@@ -927,12 +927,20 @@ def history_search(ctx, rng, budget):
         for la, a in ops:
             out.append(('mem:' + la, [clean] + a + obs))
             out.append(('disk:' + la, [clean] + a + [clean] + obs))
+            # a file left by an earlier process (or an explicit save), then the observed operator is generated in
+            # this process, then the file is loaded, then the observation: loaded and generated operators interleave
+            out.append(('file-gen-load:' + la, [clean] + a + [clean] + obs + a + obs))
+            out.append(('file-load-gen:' + la, [clean] + a + [clean] + a + obs))
         for _ in range(k_triples):
             (la, a), (lb, b) = ops[int(rng.integers(len(ops)))], ops[int(rng.integers(len(ops)))]
-            if rng.random() < 0.5:
+            u = rng.random()
+            if u < 0.3:
                 out.append(('mem3:%s,%s' % (la, lb), [clean] + a + b + obs))
-            else:
+            elif u < 0.6:
                 out.append(('disk3:%s,%s' % (la, lb), [clean] + a + [clean] + b + obs))
+            else:
+                # files of a and b from earlier processes; b generated/loaded, a loaded, b again, observation
+                out.append(('files4:%s,%s' % (la, lb), [clean] + a + [clean] + b + [clean] + obs + a + b + a + obs))
         return out
 
     # ---- rbasex -------------------------------------------------------------------
@@ -1083,7 +1091,7 @@ def history_search(ctx, rng, budget):
                ('larger', ["abel.dasch.get_bs_cached(%r, %d, basis_dir=T)" % (method, n + 16)]),
                ('smaller', ["abel.dasch.get_bs_cached(%r, %d, basis_dir=T)" % (method, n - 9)])]
         obs = ["M = np.array(abel.dasch.get_bs_cached(%r, %d, basis_dir=T))" % (method, n)]
-        for tag, lines in histories("abel.dasch.cache_cleanup()", ops, obs, budget):
+        for tag, lines in histories("abel.dasch.cache_cleanup()", ops, obs, 2 * budget):
             ns = run_hist(lines)
             n_hist += 1
             if ns is None:
